@@ -20,8 +20,8 @@ RULE = ('seeded worlds biased to many chunks / segments and channels absent from
         'history of read_data windows, slices (incl. negative steps) and integer indices (with repeated indices '
         'into the same chunk) on one lazily opened recording stream; every read()/readinto() event of each op is '
         'checked against the allowed byte set: the requested channel\'s extents (contiguous) or whole chunk extents '
-        '(interleaved / DAQmx) of the chunks overlapping the request + the 4 tag bytes of each segment between '
-        'the first and last segment holding requested data. distinct = (segment shapes, op kinds); non-trivial = '
+        '(interleaved / DAQmx) of the chunks overlapping the request + the lead-in (28 bytes; today only its 4 tag bytes '
+        'are read) of each segment between the first and last segment holding requested data. distinct = (segment shapes, op kinds); non-trivial = '
         'a non-empty window over a channel with >= 2 chunks was monitored')
 EXPECTED_PROBES = ['repeat-index-same-chunk', 'window-subset-of-chunks', 'interleaved-window', 'string-window', 'daqmx-window']
 
@@ -128,7 +128,8 @@ def allowed_bytes(w, ch, lo, hi, anchors):
             segs.append(k)
     if segs:
         for k in range(min(segs), max(segs) + 1):
-            iv.append((w.segs[k].pos, w.segs[k].pos + 4))
+            # "a constant number of bytes per segment touched": today the 4-byte tag; the whole 28-byte lead-in is allowed
+            iv.append((w.segs[k].pos, w.segs[k].pos + 28))
     return merge(iv)
 
 
